@@ -708,6 +708,10 @@ func (g *Gen) providersAct() {
 			continue
 		}
 		ref := reqRefOf(g.ctxRefFor(ri.Ctx), ri.Batch, acctRef(pi))
+		if c, ok := s.Ctx[ri.Ctx]; ok && g.stretch && c.ModuleName != "" && len(c.Providers) >= 6 && g.longLivedRefs[g.ctxRefFor(ri.Ctx)] && g.mrng.Float64() < 0.97 {
+			g.submit(g.tx(pi, MsgOp{T: "respond", Req: ref, Result: okResult, Output: pickStr(g, []string{goodOutput, goodOutput2})}), 0)
+			continue
+		}
 		if c, ok := s.Ctx[ri.Ctx]; ok && g.stretch && c.Repeated && c.RepeatedTotal < 0 && c.Timeout == 1 && c.RepeatedFrequency == 1 && (g.nBlocks >= 290 || !g.chance(0.05)) {
 			// the every-block context of a stretch run: answered reliably, so that its volume and batch counter grow
 			g.pool = append(g.pool, pendingTx{op: g.tx(pi, MsgOp{T: "respond", Req: ref, Result: okResult, Output: goodOutput}), due: g.block, order: g.orderN + 1})
@@ -1145,8 +1149,11 @@ func (g *Gen) stretchAct() {
 				provs = provs[:10]
 			}
 			thr := uint32(len(provs) - g.pick(2))
-			g.submit(Op{K: "mod", Mod: &ModOp{Label: g.label("m"), T: "create", Svc: svc, Providers: provs, Consumer: acctRef(pickInt(g, g.consumers)), Input: goodInput,
-				FeeCap: "20000000000000000stake", Timeout: int64(2 + g.pick(3)), Threshold: thr, Repeated: g.chance(0.5), Freq: 0, Total: 3}}, 0)
+			mo := &ModOp{Label: g.label("m"), T: "create", Svc: svc, Providers: provs, Consumer: acctRef(pickInt(g, g.consumers)), Input: goodInput,
+				FeeCap: "20000000000000000stake", Timeout: int64(2 + g.pick(3)), Threshold: thr, Repeated: g.chance(0.5), Freq: 0, Total: 3}
+			g.submit(Op{K: "mod", Mod: mo}, 0)
+			// its providers answer reliably, so that a batch with nine or ten outputs really happens
+			g.longLivedRefs[ctxRefOf("mod-"+mo.Label, 0)] = true
 			g.x.stats.inc("probe_stretch_module_many_providers")
 		}
 	}
